@@ -131,7 +131,9 @@ def settleSearch : Nat → List Sys.State → List Sys.State → List Sys.State 
 
 def settleAll (s : Sys.State) : List Sys.State :=
   let fixed := (List.range 12).foldl (fun acc d => addState acc (settle d 400 s)) []
-  (settleSearch 1500 [s] [s] []).foldl addState fixed
+  -- with many agents the number of move orders explodes (and comparing states is dear): search a little, rely on the policies
+  let cap := if s.agents.length > 4 then 60 else 1500
+  (settleSearch cap [s] [s] []).foldl addState fixed
 
 /-- all states reachable by letting armed timers fire (each followed by settling), depth-bounded -/
 def timerClosure : Nat → List Sys.State → List Sys.State
